@@ -206,7 +206,7 @@ scalar_t hinge_wlearner_t::do_fit(const dataset_t& dataset, const indices_t& sam
 
                               // ... try the left hinge
                               const auto score_neg = cache.score_neg(threshold, criterion, missing_rss, missing_cnt);
-                              if (std::isfinite(score_neg) && score_neg < cache.m_score)
+                              if (is_better_score(score_neg, feature, cache.m_score, cache.m_feature))
                               {
                                   cache.m_score           = score_neg;
                                   cache.m_feature         = feature;
@@ -218,7 +218,7 @@ scalar_t hinge_wlearner_t::do_fit(const dataset_t& dataset, const indices_t& sam
 
                               // ... try the right hinge
                               const auto score_pos = cache.score_pos(threshold, criterion, missing_rss, missing_cnt);
-                              if (std::isfinite(score_pos) && score_pos < cache.m_score)
+                              if (is_better_score(score_pos, feature, cache.m_score, cache.m_feature))
                               {
                                   cache.m_score           = score_pos;
                                   cache.m_feature         = feature;
